@@ -9,8 +9,8 @@ package main
 
 import (
 	"fmt"
-	"time"
 	"math/big"
+	"time"
 
 	"go.dedis.ch/kyber/v4"
 
